@@ -71,6 +71,7 @@ type Outcome struct {
 	BodyLen int         `json:"bodyLen,omitempty"` // filler bytes after the echo line
 	CT      string      `json:"ct,omitempty"`      // content type, "" => text/plain
 	Headers [][2]string `json:"headers,omitempty"` // raw: header lines in order
+	ETag    string      `json:"etag,omitempty"`    // "" none | same (one strong validator per key) | ver (changes with every fetch)
 }
 
 type Op struct {
@@ -413,6 +414,13 @@ func buildResponse(req *http.Request, u *upReq, out *Outcome) *http.Response {
 		h.Set("Cache-Control", cc)
 		if out.Age != nil {
 			h.Set("Age", strconv.Itoa(*out.Age))
+		}
+		switch out.ETag {
+		case "same":
+			h.Set("Etag", fmt.Sprintf(`"%x"`, len(u.URI)*131+len(u.Host)))
+			h.Set("Last-Modified", "Thu, 01 Jan 1998 00:00:00 GMT")
+		case "ver":
+			h.Set("Etag", fmt.Sprintf(`"s%d"`, u.Serial))
 		}
 	case "uncacheable", "body_abort":
 		switch out.Why {
